@@ -989,3 +989,17 @@ package nitro
 
 //@ func (*Nitro).GetLastGCSn
 //@ inline
+
+// Observers the set/isolation properties are stated over: ItemsCount is the merged counter NewSnapshot maintains,
+// GetCurrSn the epoch writers stamp new versions with.
+//@ func (*Nitro).ItemsCount
+//@ props C02
+//@ requires m != nil
+//@ ensures[merged-counter] result == m.itemsCount
+//@ nopanic
+
+//@ func (*Nitro).GetCurrSn
+//@ props C01
+//@ requires m != nil
+//@ ensures[epoch] result == m.currSn
+//@ nopanic
